@@ -9,6 +9,7 @@ pub mod c10;
 pub mod c12;
 pub mod c16;
 pub mod c17;
+pub mod c18;
 pub mod common;
 pub mod smoke;
 pub mod txw;
@@ -25,6 +26,8 @@ pub fn run(what: &str, tier: &str, _rest: &[String]) -> i32 {
         "C12" => c12::run(tier),
         "C16" => c16::run(tier),
         "C17" => c17::run(tier),
+        "C18" => c18::run(tier),
+        "C18diag" => c18::diag(),
         _ => {
             eprintln!("unknown check {} ({})", what, tier);
             64
